@@ -16,7 +16,7 @@ EXTENDS Text, Json, SequencesExt
 CONSTANTS Mode, MaxLen, Shard, NShards, OutFile, Seed, Stride
 
 CoarseQ == <<97, 110, 98, 49, 95, 32, 34, 39, 96, 92, 91, 93, 63, 124, 61, 38, 45, 46, 117, 1, 9, 127, 128, 233, 119070, 65533, 123, 58, -255, 40, 41, 64, 42, 44>>
-FineQ == [i \in 1..128 |-> i - 1] \o <<128, 129, 255, 256, 2047, 2048, 65533, 65535, 65536, 1114111, -128, -192, -255>>
+FineQ == [i \in 1..128 |-> i - 1] \o <<128, 129, 255, 256, 2047, 2048, 65533, 65535, 65536, 1114111, -128, -192, -255, 65279>>     \* ... , U+FEFF (byte order mark)
 AQ == IF Mode = "fine" THEN FineQ ELSE CoarseQ
 NA == Len(AQ)
 RECURSIVE PowN(_, _)
